@@ -1,36 +1,8 @@
 /-
-  Tie 1 (regenerated tables): what the code contains *now* (`Yae/Gen/*.lean`, rewritten from
-  /repo on every run by harness/cmd/extract) equals the tables the model and its proofs use.
-  A change of a built-in signature, of laziness, of registration order, of the reserved words or
-  of a constant breaks one of these obligations.
+  Tie 1 (regenerated tables): all parts.  See `Yae/Props/GenTie/*.lean`.
 -/
-import Yae.Gen.Builtins
-import Yae.Gen.Reserved
-import Yae.Gen.Consts
-import Yae.Model.Check
-import Yae.Model.Builtins
-import Yae.Model.Parser
-namespace Yae.GenTie
-
-theorem builtins_tie : Gen.builtinSigs = builtinSigs := by decide
-
-theorem reserved_tie : Gen.reservedWords = reservedWords := by decide
-
-theorem epsilon_tie : Gen.epsilonBits = epsilonBits := by decide
-
-/-- the binding powers the grammar hard-wires (`oper.BP_COND`, `BP_CALL`, `BP_MEMBER`) and the
-built-in operator table (`oper.BuiltIn()`: kind, float32 power, fixity, in declaration order) -/
-theorem bp_tie : BP.ofF64Bits Gen.bpCond = some bpCond ∧ BP.ofF64Bits Gen.bpCall = some bpCall ∧
-    BP.ofF64Bits Gen.bpMember = some bpMember := by decide
-
-theorem operators_tie :
-    Gen.builtinOperators.map (fun x => (x.1, BP.ofF64Bits x.2.1, x.2.2)) =
-      builtinOps.map (fun o => (o.kind, some o.bp, o.fixity)) := by decide
-
-#print axioms bp_tie
-#print axioms operators_tie
-#print axioms builtins_tie
-#print axioms reserved_tie
-#print axioms epsilon_tie
-
-end Yae.GenTie
+import Yae.Props.GenTie.Builtins
+import Yae.Props.GenTie.Vm
+import Yae.Props.GenTie.Parser
+import Yae.Props.GenTie.Sql
+import Yae.Props.GenTie.Conv
